@@ -15,7 +15,7 @@ package redact
 //      every valid directive (verbs x flags x width x precision): no envelope, text == fmt's.
 //   B  an unsafe top-level operand (plain, Unsafe(x), Unsafe(Safe(x)), reflect.Value) under every valid
 //      directive between two literals: envelopes-deleted text == literals (+ line feeds, + the structural
-//      punctuation of complex numbers / byte slices), stripped text == fmt's.
+//      punctuation of byte slices), stripped text == fmt's.
 //   C  argument lists and compound values (interface-typed slices, arrays, maps, struct fields, typed
 //      structs/slices/maps, nesting, pointers, reflect.Value) mixing safe and unsafe leaves: the expected text is
 //      fmt's rendering of the same value with the rendering of each unsafe leaf (a unique sentinel value,
@@ -493,7 +493,9 @@ func c05LeafExpect(a c05Arg, d string, mode int) (full, del string) {
 	// unsafe, but its structural punctuation is safe
 	switch a.kind {
 	case "complex":
-		return full, "(i)"
+		// the parentheses and the "i" are part of the rendering of the number ("the complete rendering of every
+		// other argument, including its padding, sign, quotes and prefixes, is inside envelopes")
+		return full, c05LFs(full)
 	case "bytes":
 		if v := c05Verb(d); v == 'v' || v == 'd' {
 			var bs []byte
